@@ -67,6 +67,13 @@ def decode_case(raw):
         case["condition"] = "pending"
         case["pending"] = case["pending"] + [{"op": "file_to_link", "disk": ld, "fi": (dseed >> 11) % 8, "prefer_empty": True,
                                              "target_fi": (dseed >> 14) % 8 if dseed & 0x20000 else None}]
+    if ALLCMDS[case["command"]][0] == "pool":
+        # a recorded symbolic link to a directory of the array that holds an empty sub-directory: pool must not reach through it
+        pd = (dseed >> 9) % nd
+        case["init"] = case["init"] + [{"op": "create", "disk": pd, "name": "album/song", "size": 1000, "cseed": 5, "kind": 0},
+                                       {"op": "mkdir", "disk": pd, "name": "album/incoming/new"},
+                                       {"op": "symlink", "disk": pd, "name": "latest", "target": "album"}]
+        case["prog"] = case["prog"] + [{"op": "sync"}]
     if ALLCMDS[case["command"]][0] == "touch":
         # touch acts on time-stamps with a zero sub-second part: make them frequent, in synced files, in files changed or
         # re-stamped since the last sync (whole seconds again) and in files the content file does not know
